@@ -135,6 +135,13 @@ def run(ck):
     ck.obligation("every scenario ran as scheduled (%d scenarios)" % len(cases), not broken,
                   "; ".join("%d: %s" % (c["id"], c["err"]) for c in broken[:5]))
 
+    stuck = [c for c in broken if "never answered" in c["err"] or "did not reach" in c["err"]]
+    if stuck:       # a request that hangs (e.g. a panic inside database/sql that leaves the pool locked): the scenario IS the failing input
+        c = stuck[0]
+        ck.violation({"property": "C17", "part": "overlapping requests", "kind": "a request never answered (the reader hangs): " + c["err"],
+                      "case": {"id": c["id"], "kind": c["kind"], "class": c.get("class"), "reqs": [slim_req(x) for x in c.get("reqs") or []], "schedule": c.get("schedule"), "trace": c.get("trace")},
+                      "replay": "harness promreq --cases <file with .case on one line>"})
+        return
     res = {"OM": [], "OV": [], "OW": [], "SM": [], "SV": []}
     shard = 1500
     for k in range(0, len(cases), shard):
